@@ -42,7 +42,7 @@ func randomCfg(rng *rand.Rand, i int, dir string) lcsim.Cfg {
 		Heartbeat: time.Duration([]int{5, 5, 2, 0}[rng.IntN(4)]) * time.Second, Unregister: rng.IntN(2) == 0}
 	if rng.IntN(3) == 0 {
 		c.Kind = "basic"
-		c.Observe = time.Duration([]int{0, 0, 3}[rng.IntN(3)]) * time.Second
+		c.Observe = time.Duration([]int{0, 0, 3, 3, 12, 32}[rng.IntN(6)]) * time.Second
 		c.RegisterState = []ring.InstanceState{ring.ACTIVE, ring.PENDING, ring.JOINING}[rng.IntN(3)]
 		c.LeaveOnStop = rng.IntN(2) == 0
 		if rng.IntN(3) == 0 {
